@@ -367,7 +367,7 @@ static int rtag_of(unsigned r, uint8_t *out) {
 
 /* srcv3 <maxBlk> <len1> <seed1> <len2> <seed2> <size1:0|1> <t.num.m.szx.r,…> : every step is a Block1 PUT to resource "b"
  * carrying the genuine slice (num, szx) of body t (0|1) and the Request-Tag coded by r; printed per step: d…/s<code> as
- * srcv2, then /<number of lg_srcv on the session> */
+ * srcv2, b<num>.<m>.<szx> = Block1 option of the response if any, then /<number of lg_srcv on the session> */
 static void do_srcv3(unsigned maxBlk, size_t len1, unsigned seed1, size_t len2, unsigned seed2, int withSize1, char *seq) {
   sim_reset();
   sim_log_enabled = 0;
@@ -420,8 +420,12 @@ static void do_srcv3(unsigned maxBlk, size_t len1, unsigned seed1, size_t len2, 
         LL_DELETE(s->lg_srcv, free_lg);
         coap_block_delete_lg_srcv(s, free_lg);
       }
-    } else
+    } else {
+      coap_block_b_t rb;
       printf("s%d", (int)rsp->code);
+      /* the Block1 option of the 2.31 (NUM acknowledged, SZX the server wants) */
+      if (coap_get_block_b(NULL, rsp, COAP_OPTION_BLOCK1, &rb)) printf("b%u.%u.%u", rb.num, rb.m, rb.szx);
+    }
     LL_FOREACH(s->lg_srcv, q) n++;
     printf("/%d", n);
     coap_lock_unlock(ctx);
